@@ -51,7 +51,7 @@ def base36Digit (d : Nat) : Nat := if d < 10 then 48 + d else 87 + d
 
 /-- commands.go EncodeUserId: userId % MaxUserId in base 36, left-padded to two characters -/
 def encodeUserId (uid : Nat) : List Nat :=
-  let u := uid % SA.Gen.maxUserId
+  let u := uid % SA.Gen.C09.maxUserId
   [base36Digit (u / 36), base36Digit (u % 36)]
 
 /-- strconv digit value in base 36 (either case) -/
@@ -70,7 +70,7 @@ def cmdCode : Req → Nat
   | .fragSize .. => 114
 
 def needsUserId (code : Nat) : Bool :=
-  match SA.Gen.commandTable.find? (·.1 == code) with
+  match SA.Gen.C09.commandTable.find? (·.1 == code) with
   | some (_, u, _, _) => u
   | none => false
 
@@ -166,7 +166,7 @@ def decodePacket (uid : Nat) (d : List Nat) : Dec Req :=
       else .ok (.packet uid ack none)
 
 def hasRequest (code : Nat) : Bool :=
-  match SA.Gen.commandTable.find? (·.1 == code) with
+  match SA.Gen.C09.commandTable.find? (·.1 == code) with
   | some (_, _, q, _) => q
   | none => false
 
@@ -211,7 +211,7 @@ def decodeReq (b32 up : Codec) (data : List Nat) : Dec Req :=
   match data with
   | [] => .panic
   | c :: _ =>
-    match SA.Gen.commandTable.find? (fun e => c == e.1 || lower c == e.1) with
+    match SA.Gen.C09.commandTable.find? (fun e => c == e.1 || lower c == e.1) with
     | none => .err
     | some (code, _, hasQ, _) => if hasQ then decodeBody b32 up code data else .panic
 
@@ -322,7 +322,7 @@ def handle : List String → String
   | ["mtu", len, codec, multi] =>
     match len.toNat?, codec.toList with
     | some l, [c] =>
-      match SA.Gen.codecRatios.find? (·.1 == upper c.toNat) with
+      match SA.Gen.C09.codecRatios.find? (·.1 == upper c.toNat) with
       | some (_, num, den) =>
         match upstreamMtu l num den (multi == "1") with
         | some v => s!"mtu {v}"
